@@ -68,13 +68,9 @@ theorem encapExt_shape (crc : CrcFn) (es : Enc) (pdu : Bytes) (fid pt : Nat) (la
     (buf : Bytes) (exts : List Ext) :
     StShape es (checkLabelReUse es label).2 (encapExt crc es pdu fid pt label buf exts) := by
   have hr := checkLabelReUse_restore es label
-  unfold encapExt
-  generalize checkLabelReUse es label = p at *
-  obtain ⟨lbl, es1⟩ := p
-  dsimp only at hr ⊢
-  rw [hr]
-  repeat' split
-  all_goals simp [StShape]
+  fun_cases encapExt crc es pdu fid pt label buf exts
+  all_goals simp_all [StShape]
+  all_goals exact hr
 
 variable {crc : CrcFn} {es : Enc} {pdu : Bytes} {fid pt : Nat} {label : Label} {buf : Bytes}
   {exts : List Ext}
@@ -157,26 +153,25 @@ theorem encap_ok_written {s : EncStatus} (h : (encap crc es pdu fid pt label buf
 theorem encapExt_ok_written {s : EncStatus}
     (h : (encapExt crc es pdu fid pt label buf exts).res = .ok s) :
     (∃ g first rest n, wrSeq buf 0
-        ([be16 (genHeader .complete (emittedLabel es label).type g)] ++
-         ([be16 first, (emittedLabel es label).bytes] ++ rest))
+        (be16 (genHeader .complete (emittedLabel es label).type g) ::
+         be16 first :: (emittedLabel es label).bytes :: rest)
         = some ((encapExt crc es pdu fid pt label buf exts).buf, n)) ∨
     (∃ g t first rest n, wrSeq buf 0
-        ([be16 (genHeader .first (emittedLabel es label).type g), [u8 fid], be16 t] ++
-         ([be16 first, (emittedLabel es label).bytes] ++ rest))
+        (be16 (genHeader .first (emittedLabel es label).type g) :: [u8 fid] :: be16 t ::
+         be16 first :: (emittedLabel es label).bytes :: rest)
         = some ((encapExt crc es pdu fid pt label buf exts).buf, n)) := by
   revert h
-  unfold encapExt emittedLabel
-  generalize checkLabelReUse es label = p
-  obtain ⟨lbl, es1⟩ := p
-  dsimp only
-  repeat' split
+  unfold emittedLabel
+  fun_cases encapExt crc es pdu fid pt label buf exts
   all_goals (intro h; simp at h)
-  · rename_i heq
-    refine Or.inl ⟨_, _, _, _, ?_⟩
-    simpa using heq
-  · rename_i heq
-    refine Or.inr ⟨_, _, _, _, _, ?_⟩
-    simpa using heq
+  · have hcl := ‹checkLabelReUse es label = _›
+    have hw := ‹wrSeq buf 0 _ = some _›
+    rw [hcl]
+    exact Or.inl ⟨_, _, _, _, hw⟩
+  · have hcl := ‹checkLabelReUse es label = _›
+    have hw := ‹wrSeq buf 0 _ = some _›
+    rw [hcl]
+    exact Or.inr ⟨_, _, _, _, _, hw⟩
 
 /-! ## 2. Abstract history machine -/
 
@@ -343,8 +338,11 @@ any arguments) drives the encapsulator exactly as the abstract machine run on th
 history. -/
 theorem rrun_srun {crc : CrcFn} {es es' : Enc} {rs : List ROp} {ops : List SOp}
     (h : rrun crc es rs = some (es', ops)) : es' = srun es ops ∧ ops.length = rs.length := by
-  induction rs generalizing es ops with
-  | nil => simp [rrun] at h; simp [← h.1, ← h.2, srun]
+  induction rs generalizing es es' ops with
+  | nil =>
+    simp only [rrun, Option.some.injEq, Prod.mk.injEq] at h
+    obtain ⟨rfl, rfl⟩ := h
+    exact ⟨rfl, rfl⟩
   | cons r rs ih =>
     simp only [rrun] at h
     split at h
@@ -354,8 +352,9 @@ theorem rrun_srun {crc : CrcFn} {es es' : Enc} {rs : List ROp} {ops : List SOp}
       · simp at h
       · rename_i es2 ops2 h2
         simp only [Option.some.injEq, Prod.mk.injEq] at h
+        obtain ⟨rfl, rfl⟩ := h
         have := ih h2
-        rw [← h.1, ← h.2, srun, ← rstep_sstep h1]
+        rw [srun, ← rstep_sstep h1]
         simp [this]
 
 /-! ## 3. Ghost bookkeeping on the observable trace -/
@@ -365,6 +364,41 @@ def Label.isAddr : Label → Bool
   | .six .. => true
   | .three .. => true
   | _ => false
+
+/-- `last_label` after a packet carrying the full label `l` was accepted. -/
+def newLast (old : Option Label) (l : Label) : Option Label :=
+  if l = .broadcast then none else if l ≠ .reuse then some l else old
+
+/-- Complete case analysis of `check_label_re_use`. -/
+theorem checkLabelReUse_spec (es : Enc) (l : Label) :
+    (es.reUse = true ∧ es.last = some l ∧ es.reMax = 0 ∧
+      checkLabelReUse es l = (.reuse, es)) ∨
+    (es.reUse = true ∧ es.last = some l ∧ es.reCur < es.reMax ∧
+      checkLabelReUse es l = (.reuse, { es with reCur := es.reCur + 1 })) ∨
+    (es.reUse = true ∧ es.last = some l ∧ 0 < es.reMax ∧ es.reMax ≤ es.reCur ∧
+      checkLabelReUse es l = (l, { es with reCur := 0, last := newLast es.last l })) ∨
+    (es.reUse = true ∧ es.last ≠ some l ∧
+      checkLabelReUse es l = (l, { es with last := newLast es.last l })) ∨
+    (es.reUse = false ∧ checkLabelReUse es l = (l, es)) := by
+  obtain ⟨u, m, c, last⟩ := es
+  unfold checkLabelReUse newLast
+  dsimp only
+  cases u with
+  | false => simp
+  | true =>
+    by_cases hl : last = some l
+    · subst hl
+      by_cases h0 : m = 0
+      · simp [h0]
+      · by_cases hc : c < m
+        · simp [h0, hc]
+        · have h1 : 0 < m := by omega
+          have h2 : m ≤ c := by omega
+          simp only [true_and, if_true, h0, hc, and_false, if_false, h1, h2]
+          cases l <;> simp
+    · have hl' : ¬ (some l = last) := fun h => hl h.symm
+      simp only [true_and, if_true, hl', false_and, if_false, hl]
+      cases l <;> simp [hl]
 
 /-- Ghost state, a function of the trace only (never reads the encapsulator):
 * `enabled`, `max`: the configuration in force (last setter called; initially enabled, no maximum);
@@ -408,6 +442,22 @@ theorem ghostFrom_append (g : Ghost) (a b : List Event) :
   | nil => rfl
   | cons e a ih => simp [ghostFrom, ih]
 
+theorem gstep_reuse_subst (g : Ghost) {p : Label} (ok : Bool) (h : p ≠ .reuse) :
+    gstep g (.send p ok) (some .reuse) = { g with run := g.run + 1 } := by
+  simp [gstep, h]
+
+theorem gstep_reuse_expl (g : Ghost) (ok : Bool) :
+    gstep g (.send .reuse ok) (some .reuse) = g := by
+  simp [gstep]
+
+theorem gstep_bcast (g : Ghost) (p : Label) (ok : Bool) :
+    gstep g (.send p ok) (some .broadcast) = { g with run := 0, prev := none, carried := none } := by
+  simp [gstep]
+
+theorem gstep_addr (g : Ghost) (p : Label) (ok : Bool) {l : Label} (h : l.isAddr = true) :
+    gstep g (.send p ok) (some l) = { g with run := 0, prev := some l, carried := some l } := by
+  cases l <;> simp_all [gstep, Label.isAddr]
+
 /-- `prev` is always covered by `carried` (so a statement about `prev` is the stronger one). -/
 theorem gstep_prev_carried {g : Ghost} (h : ∀ l, g.prev = some l → g.carried = some l)
     (op : SOp) (em : Option Label) :
@@ -447,27 +497,70 @@ theorem Inv.step {es : Enc} {g : Ghost} (h : Inv es g) (op : SOp) :
     | false => exact ⟨h1, h2, h3, h4, h5, h6, h7, h8⟩
     | true =>
       have hl : ∀ x, es.last = some x → x.isAddr = true := fun x hx => h6 x (h5 x hx)
-      cases l with
-      | reuse =>
-        have hne : ¬ (some Label.reuse = es.last) := by
-          intro hc; have := hl _ hc.symm; simp [Label.isAddr] at this
-        constructor <;>
-          simp only [sstep, emittedLabel, checkLabelReUse, hne, false_and, if_false] <;>
-          split <;> simp_all [gstep]
-      | broadcast =>
-        have hne : ¬ (some Label.broadcast = es.last) := by
-          intro hc; have := hl _ hc.symm; simp [Label.isAddr] at this
-        constructor <;>
-          simp only [sstep, emittedLabel, checkLabelReUse, hne, false_and, if_false] <;>
-          split <;> simp_all [gstep]
-      | three a b c =>
-        constructor <;>
-          simp only [sstep, emittedLabel, checkLabelReUse] <;>
-          (repeat' split) <;> simp_all [gstep, Label.isAddr] <;> omega
-      | six a b c d e f =>
-        constructor <;>
-          simp only [sstep, emittedLabel, checkLabelReUse] <;>
-          (repeat' split) <;> simp_all [gstep, Label.isAddr] <;> omega
+      rcases checkLabelReUse_spec es l with ⟨hu, hlast, hm, heq⟩ | ⟨hu, hlast, hc, heq⟩ |
+        ⟨hu, hlast, hm, hc, heq⟩ | ⟨hu, hne, heq⟩ | ⟨hu, heq⟩
+      · -- substituted, no maximum
+        have ha := hl l hlast
+        have hr : l ≠ .reuse := by intro hc; subst hc; simp [Label.isAddr] at ha
+        simp only [sstep, emittedLabel, heq, gstep_reuse_subst g true hr]
+        exact ⟨h1, h2, h3, fun hp => by omega, h5, h6, h7, h8⟩
+      · -- substituted, counter below the maximum
+        have ha := hl l hlast
+        have hr : l ≠ .reuse := by intro hc; subst hc; simp [Label.isAddr] at ha
+        simp only [sstep, emittedLabel, heq, gstep_reuse_subst g true hr]
+        exact ⟨h1, h2, hc, fun hp => Nat.succ_le_succ (h4 hp), h5, h6, h7, h8⟩
+      · -- maximum reached: full label, counter restarts
+        have ha := hl l hlast
+        have hnl : newLast es.last l = some l := by
+          cases l <;> simp_all [newLast, Label.isAddr]
+        simp only [sstep, emittedLabel, heq, gstep_addr g l true ha, hnl]
+        refine ⟨h1, h2, Nat.zero_le _, fun _ => Nat.le_refl _, ?_, ?_, ?_, ?_⟩
+        · intro x hx; simpa using hx
+        · intro x hx; simp only [Option.some.injEq] at hx; subst hx; exact ha
+        · intro x hx; simpa using hx
+        · intro hf; simp only at hf; rw [hu] at hf; cases hf
+      · -- different label (or nothing remembered): full label
+        simp only [sstep, emittedLabel, heq]
+        cases l with
+        | reuse =>
+          rw [gstep_reuse_expl]
+          exact ⟨h1, h2, h3, h4, by simpa [newLast] using h5, h6, h7,
+            by simpa [newLast] using h8⟩
+        | broadcast =>
+          rw [gstep_bcast]
+          refine ⟨h1, h2, h3, fun _ => Nat.zero_le _, ?_, ?_, ?_, ?_⟩ <;> simp [newLast]
+        | three a b c =>
+          rw [gstep_addr g _ true (by rfl)]
+          refine ⟨h1, h2, h3, fun _ => Nat.zero_le _, ?_, ?_, ?_, ?_⟩
+          · simp [newLast]
+          · intro x hx; simp only [Option.some.injEq] at hx; subst hx; rfl
+          · simp
+          · intro hf; simp only at hf; rw [hu] at hf; cases hf
+        | six a b c d e f =>
+          rw [gstep_addr g _ true (by rfl)]
+          refine ⟨h1, h2, h3, fun _ => Nat.zero_le _, ?_, ?_, ?_, ?_⟩
+          · simp [newLast]
+          · intro x hx; simp only [Option.some.injEq] at hx; subst hx; rfl
+          · simp
+          · intro hf; simp only at hf; rw [hu] at hf; cases hf
+      · -- re-use disabled: nothing is remembered
+        have hn := h8 hu
+        simp only [sstep, emittedLabel, heq]
+        have h5' : ∀ (p : Option Label) (x : Label), es.last = some x → p = some x := by
+          intro p x hx; rw [hn] at hx; cases hx
+        cases l with
+        | reuse => rw [gstep_reuse_expl]; exact ⟨h1, h2, h3, h4, h5, h6, h7, h8⟩
+        | broadcast =>
+          rw [gstep_bcast]
+          exact ⟨h1, h2, h3, fun _ => Nat.zero_le _, h5' _, by simp, by simp, h8⟩
+        | three a b c =>
+          rw [gstep_addr g _ true (by rfl)]
+          refine ⟨h1, h2, h3, fun _ => Nat.zero_le _, h5' _, ?_, by simp, h8⟩
+          intro x hx; simp only [Option.some.injEq] at hx; subst hx; rfl
+        | six a b c d e f =>
+          rw [gstep_addr g _ true (by rfl)]
+          refine ⟨h1, h2, h3, fun _ => Nat.zero_le _, h5' _, ?_, by simp, h8⟩
+          intro x hx; simp only [Option.some.injEq] at hx; subst hx; rfl
   | reset => constructor <;> simp_all [sstep, gstep, Enc.reset]
   | disable => constructor <;> simp_all [sstep, gstep, Enc.disable]
   | enable => constructor <;> simp_all [sstep, gstep, Enc.enable]
@@ -479,5 +572,154 @@ theorem Inv.run {es : Enc} {g : Ghost} (h : Inv es g) (ops : List SOp) :
   induction ops generalizing es g with
   | nil => exact h
   | cons op ops ih => exact ih (h.step op)
+
+/-! ### Consequences used by C15 -/
+
+/-- While nothing is remembered the requested label is written as it is. -/
+theorem emittedLabel_of_last_none {es : Enc} (h : es.last = none) (l : Label) :
+    emittedLabel es l = l := by
+  unfold emittedLabel
+  rcases checkLabelReUse_spec es l with ⟨_, hl, _⟩ | ⟨_, hl, _⟩ | ⟨_, _, _, _, heq⟩ | ⟨_, _, heq⟩ |
+    ⟨_, heq⟩
+  · rw [h] at hl; cases hl
+  · rw [h] at hl; cases hl
+  · rw [heq]
+  · rw [heq]
+  · rw [heq]
+
+/-- While re-use is disabled the requested label is written as it is. -/
+theorem emittedLabel_of_disabled {es : Enc} (h : es.reUse = false) (l : Label) :
+    emittedLabel es l = l := by
+  unfold emittedLabel
+  rcases checkLabelReUse_spec es l with ⟨hu, _⟩ | ⟨hu, _⟩ | ⟨hu, _⟩ | ⟨hu, _⟩ | ⟨_, heq⟩
+  · rw [h] at hu; cases hu
+  · rw [h] at hu; cases hu
+  · rw [h] at hu; cases hu
+  · rw [h] at hu; cases hu
+  · rw [heq]
+
+/-- A marker is substituted only for the remembered label, with re-use enabled. -/
+theorem emittedLabel_reuse {es : Enc} {l : Label} (h : emittedLabel es l = .reuse)
+    (hne : l ≠ .reuse) : es.reUse = true ∧ es.last = some l ∧ (es.reMax = 0 ∨ es.reCur < es.reMax) := by
+  unfold emittedLabel at h
+  rcases checkLabelReUse_spec es l with ⟨hu, hl, hm, _⟩ | ⟨hu, hl, hc, _⟩ | ⟨_, _, _, _, heq⟩ |
+    ⟨_, _, heq⟩ | ⟨_, heq⟩
+  · exact ⟨hu, hl, Or.inl hm⟩
+  · exact ⟨hu, hl, Or.inr hc⟩
+  · rw [heq] at h; exact absurd h hne
+  · rw [heq] at h; exact absurd h hne
+  · rw [heq] at h; exact absurd h hne
+
+/-- The operation enables re-use. -/
+def SOp.enables : SOp → Bool
+  | .enable => true
+  | .enableMax _ => true
+  | _ => false
+
+theorem reUse_false_step {es : Enc} (h : es.reUse = false) {op : SOp} (hq : op.enables = false) :
+    (sstep es op).1.reUse = false := by
+  cases op with
+  | send l ok =>
+    cases ok
+    · exact h
+    · simp only [sstep]; rw [(checkLabelReUse_fields es l).1]; exact h
+  | reset => exact h
+  | disable => rfl
+  | enable => cases hq
+  | enableMax n => cases hq
+
+theorem reUse_false_run {es : Enc} (h : es.reUse = false) {ops : List SOp}
+    (hq : ∀ op ∈ ops, op.enables = false) : (srun es ops).reUse = false := by
+  induction ops generalizing es with
+  | nil => exact h
+  | cons op ops ih =>
+    exact ih (reUse_false_step h (hq op (List.mem_cons_self ..)))
+      (fun o ho => hq o (List.mem_cons_of_mem _ ho))
+
+/-- The operation produces no packet for a requested 3- or 6-byte label (failed calls,
+setters, successful broadcast / explicit re-use packets). -/
+def SOp.quiet : SOp → Bool
+  | .send l true => !l.isAddr
+  | _ => true
+
+theorem last_none_step {es : Enc} (h : es.last = none) {op : SOp} (hq : op.quiet = true) :
+    (sstep es op).1.last = none := by
+  cases op with
+  | send l ok =>
+    cases ok
+    · exact h
+    · simp only [sstep]
+      rcases checkLabelReUse_spec es l with ⟨_, hl, _⟩ | ⟨_, hl, _⟩ | ⟨_, hl, _⟩ | ⟨_, _, heq⟩ |
+        ⟨_, heq⟩
+      · rw [h] at hl; cases hl
+      · rw [h] at hl; cases hl
+      · rw [h] at hl; cases hl
+      · rw [heq]
+        cases l <;> simp_all [newLast, SOp.quiet, Label.isAddr]
+      · rw [heq]; exact h
+  | reset => rfl
+  | disable => rfl
+  | enable => exact h
+  | enableMax n => exact h
+
+theorem last_none_run {es : Enc} (h : es.last = none) {ops : List SOp}
+    (hq : ∀ op ∈ ops, op.quiet = true) : (srun es ops).last = none := by
+  induction ops generalizing es with
+  | nil => exact h
+  | cons op ops ih =>
+    exact ih (last_none_step h (hq op (List.mem_cons_self ..)))
+      (fun o ho => hq o (List.mem_cons_of_mem _ ho))
+
+/-- The packet is a *substituted* one: the marker is on the wire although the caller passed
+another label. -/
+def Event.isSubst : Event → Bool
+  | (.send p _, some .reuse) => p != .reuse
+  | _ => false
+
+/-- The event ends a run of substituted packets: a packet carrying a full label (3/6-byte
+or broadcast), or a configuration call. -/
+def Event.endsRun : Event → Bool
+  | (.send _ _, some l) => l != .reuse
+  | (.disable, _) => true
+  | (.enable, _) => true
+  | (.enableMax _, _) => true
+  | _ => false
+
+theorem gstep_run_window (g : Ghost) (e : Event) (h : e.endsRun = false) :
+    (gstep g e.1 e.2).run = g.run + (if e.isSubst then 1 else 0) ∧
+    (gstep g e.1 e.2).max = g.max := by
+  obtain ⟨op, em⟩ := e
+  cases op with
+  | send p ok =>
+    cases em with
+    | none => simp [gstep, Event.isSubst]
+    | some l =>
+      cases l with
+      | reuse =>
+        by_cases hp : p = .reuse
+        · simp [gstep, Event.isSubst, hp]
+        · simp [gstep, Event.isSubst, hp]
+      | broadcast => simp [Event.endsRun] at h
+      | three a b c => simp [Event.endsRun] at h
+      | six a b c d e f => simp [Event.endsRun] at h
+  | reset => simp [gstep, Event.isSubst]
+  | disable => simp [Event.endsRun] at h
+  | enable => simp [Event.endsRun] at h
+  | enableMax n => simp [Event.endsRun] at h
+
+/-- Over a stretch of the trace without full-label packet and without configuration call,
+`run` grows by exactly the number of substituted packets (failed calls, `reset` and
+explicit re-use packets are transparent). -/
+theorem ghostFrom_run_window (g : Ghost) (evs : List Event)
+    (h : ∀ e ∈ evs, e.endsRun = false) :
+    (ghostFrom g evs).run = g.run + evs.countP Event.isSubst ∧ (ghostFrom g evs).max = g.max := by
+  induction evs generalizing g with
+  | nil => simp [ghostFrom]
+  | cons e evs ih =>
+    have he := gstep_run_window g e (h e (List.mem_cons_self ..))
+    have := ih (gstep g e.1 e.2) (fun x hx => h x (List.mem_cons_of_mem _ hx))
+    simp only [ghostFrom, List.countP_cons]
+    rw [this.1, this.2, he.1, he.2]
+    exact ⟨by omega, rfl⟩
 
 end Gse
